@@ -213,6 +213,11 @@ Boxes ==   \* [left, right, bottom, top, tails]
     [left |-> R(-1, 1), right |-> One, bottom |-> R(-1, 1), top |-> One, tails |-> TRUE],
     [left |-> R(-11, 10), right |-> R(11, 10), bottom |-> R(-11, 10), top |-> R(11, 10), tails |-> TRUE] }   \* 11/10 is not a float: float32 rounds it up
 BigBox == [left |-> R(-64, 1), right |-> R(64, 1), bottom |-> R(-64, 1), top |-> R(64, 1), tails |-> TRUE]
+\* boxes narrower than one (where a floor given as a FRACTION of the box is smaller than the same number in box units)
+SmallBox == [left |-> Zero, right |-> R(2, 5), bottom |-> Zero, top |-> R(2, 5), tails |-> FALSE]
+\* a box of width three: its reciprocal is not a float, so "multiply by the reciprocal" and "divide" differ
+WideBox == [left |-> R(-5, 2), right |-> R(1, 2), bottom |-> R(-5, 2), top |-> R(1, 2), tails |-> FALSE]
+SmallTails == [left |-> R(-1, 4), right |-> R(1, 4), bottom |-> R(-1, 4), top |-> R(1, 4), tails |-> TRUE]
 
 Base(fam, ws, box, dt) ==
   [fam |-> fam, ws |-> ws, left |-> box.left, right |-> box.right, bottom |-> box.bottom, top |-> box.top,
@@ -229,13 +234,13 @@ ParamSets(fam) ==
                 : box \in Boxes}
     [] fam = "cubic" ->
          UNION {{Base(fam, ws, box, "f64") @@ [hs |-> hs, dl |-> dl, dr |-> dr, mbw |-> mb[1], mbh |-> mb[2]] :
-                    hs \in WeightVecs(Len(ws)), dl \in SigLat, dr \in SigLat, mb \in MinBins, box \in Boxes}
+                    hs \in WeightVecs(Len(ws)), dl \in SigLat, dr \in SigLat, mb \in MinBins, box \in Boxes \cup {WideBox}}
                 : ws \in UNION {WeightVecs(n) : n \in 1..MaxBins}}
     [] fam = "rq" ->
          UNION {{Base(fam, ws, bd[1], bd[2]) @@ [hs |-> hs, mbw |-> mb[1], mbh |-> mb[2],
                     ds |-> IF bd[1].tails THEN [i \in 1..(Len(ws) + 1) |-> IF i = 1 \/ i = Len(ws) + 1 THEN One ELSE dv[i]] ELSE dv] :
                     hs \in WeightVecs(Len(ws)), dv \in DerivVecs(Len(ws)), mb \in MinBins,
-                    bd \in ({<<b, "f64">> : b \in Boxes} \cup {<<BigBox, "f32">>, <<BigBox, "f64">>})}
+                    bd \in ({<<b, "f64">> : b \in Boxes} \cup {<<BigBox, "f32">>, <<BigBox, "f64">>, <<SmallBox, "f64">>, <<SmallTails, "f64">>})}
                 : ws \in UNION {WeightVecs(n) : n \in 1..MaxBins}}
 
 \* ------------------------------------------------------------------ behaviour
